@@ -46,7 +46,7 @@ func main() {
 		n := 0
 		emit := func(kind string, from, to token.Pos, repl string) {
 			removal := kind == "del" || kind == "delif" || kind == "dropL" || kind == "dropR"
-			if (mode == "modify") == removal {
+			if (mode == "modify") == removal || strings.ContainsAny(repl, "\n\t") {
 				return
 			}
 			n++
